@@ -1521,12 +1521,78 @@ func runC17Race(c *Case, out func(string)) {
 			fail = fmt.Sprintf("round %d (waiter: %s, commit %v after the deadline): %s", i, c17Class(r.err), off, l)
 		}
 	}
+	// second race: two finish calls of ONE transaction issued at the same moment while other calls of
+	// that transaction keep its mutex busy. Exactly one may succeed (the other is told the transaction
+	// is closed), and afterwards the lock is free and nothing is left registered.
+	nDouble := 0
+	for i := 0; i < rounds && fail == "" && !v.svc; i++ {
+		hctx, hcancel := context.WithTimeout(context.Background(), 2*time.Second)
+		id, err := call(hctx, false)
+		hcancel()
+		if err != nil {
+			fail = fmt.Sprintf("double-finish round %d: begin failed: %v", i, err)
+			break
+		}
+		tx, ok := v.reg.Get(id)
+		if !ok {
+			fail = fmt.Sprintf("double-finish round %d: the transaction just begun is not registered", i)
+			break
+		}
+		key := []byte(fmt.Sprintf("df-%d", i))
+		tx.Put(key, []byte("v"))
+		var stop atomic.Bool
+		var busy, fin sync.WaitGroup
+		for g := 0; g < 2; g++ {
+			busy.Add(1)
+			go func() {
+				defer busy.Done()
+				for !stop.Load() {
+					tx.Get(key)
+				}
+			}()
+		}
+		errs := make([]error, 2)
+		start := make(chan struct{})
+		for g := 0; g < 2; g++ {
+			fin.Add(1)
+			go func(g int) {
+				defer fin.Done()
+				<-start
+				if g == 1 && i%3 == 0 {
+					errs[g] = tx.Rollback()
+				} else {
+					errs[g] = tx.Commit()
+				}
+			}(g)
+		}
+		close(start)
+		fin.Wait()
+		stop.Store(true)
+		busy.Wait()
+		v.reg.Remove(id)
+		won := 0
+		for _, e := range errs {
+			if e == nil {
+				won++
+			}
+		}
+		nDouble++
+		if won != 1 {
+			fail = fmt.Sprintf("double-finish round %d: %d of two concurrent finish calls of one transaction reported success (results: %v / %v)", i, won, errs[0], errs[1])
+			break
+		}
+		v.quiesce()
+		if ls := v.lockState(); ls != "free" {
+			fail = fmt.Sprintf("double-finish round %d: the lock is left in state %q", i, ls)
+		}
+	}
 	out("X race")
 	if fail != "" {
 		out("ORACLE FAIL " + fail)
 	} else {
 		out("ORACLE ok")
 	}
+	out(fmt.Sprintf("NOTE double_finish_rounds=%d", nDouble))
 	nt := 0
 	if nOk > 0 && nTimeout > 0 {
 		nt = 1
